@@ -20,6 +20,7 @@ package yang
 
 import (
 	"fmt"
+	"sort"
 	"sync"
 )
 
@@ -352,13 +353,10 @@ func (ms *Modules) Process() []error {
 	// Now handle all the augments.  We don't have a good way to know
 	// what order to process them in, so repeat until no progress is made
 
-	mods := make([]*Module, 0, len(ms.Modules)+len(ms.SubModules))
-	for _, m := range ms.Modules {
-		mods = append(mods, m)
-	}
-	for _, m := range ms.SubModules {
-		mods = append(mods, m)
-	}
+	// The modules are handled in the order of their names so that the
+	// result (e.g., which of two conflicting augments is reported) does not
+	// depend on the iteration order of the maps.
+	mods := append(sortedModules(ms.Modules), sortedModules(ms.SubModules)...)
 	for len(mods) > 0 {
 		var processed int
 		for i := 0; i < len(mods); {
@@ -399,7 +397,7 @@ func (ms *Modules) Process() []error {
 	// an entry does not exist.
 	dvP := map[string]bool{} // cache the modules we've handled since we have both modname and modname@revision-date
 	for _, devmods := range []map[string]*Module{ms.Modules, ms.SubModules} {
-		for _, m := range devmods {
+		for _, m := range sortedModules(devmods) {
 			e := ToEntry(m)
 			if !dvP[e.Name] {
 				errs = append(errs, e.ApplyDeviate(ms.ParseOptions.DeviateOptions)...)
@@ -419,6 +417,20 @@ func (ms *Modules) Process() []error {
 	}
 
 	return errorSort(errs)
+}
+
+// sortedModules returns the modules in m ordered by their keys in m.
+func sortedModules(m map[string]*Module) []*Module {
+	keys := make([]string, 0, len(m))
+	for k := range m {
+		keys = append(keys, k)
+	}
+	sort.Strings(keys)
+	mods := make([]*Module, 0, len(m))
+	for _, k := range keys {
+		mods = append(mods, m[k])
+	}
+	return mods
 }
 
 // include resolves all the include and import statements for m.  It returns
